@@ -110,6 +110,8 @@ type SDKCase struct {
 	EnvSampler string `json:"env_sampler,omitempty"` // text of OTEL_TRACES_SAMPLER
 	EnvSKind   string `json:"env_sampler_kind,omitempty"`
 	Arg        SDKSrc `json:"arg"` // OTEL_TRACES_SAMPLER_ARG: Raw text, Kind: ok | bad | padded
+	// mixed cases (Setting == "mixed"): every setting of the component
+	Mix []MixItem `json:"mix,omitempty"`
 }
 
 type envText struct{ raw, kind string }
@@ -152,6 +154,11 @@ var settingDefs = []settingDef{
 	{"log_limits", "attr_count", "OTEL_LOGRECORD_ATTRIBUTE_COUNT_LIMIT", "", 128, nil, false, 6},
 	{"log_limits", "attr_len", "OTEL_LOGRECORD_ATTRIBUTE_VALUE_LENGTH_LIMIT", "", -1, nil, false, 6},
 	{"sampler", "sampler", "OTEL_TRACES_SAMPLER", "", 0, nil, false, 14},
+	// all settings of the component at once, see sdk_mixed_test.go
+	{"log_limits", "mixed", "", "", 0, nil, false, 8},
+	{"span_limits", "mixed", "", "", 0, nil, false, 6},
+	{"bsp", "mixed", "", "", 0, nil, false, 5},
+	{"blrp", "mixed", "", "", 0, nil, false, 5},
 }
 
 func defOf(comp, setting string) settingDef {
@@ -193,6 +200,10 @@ func genSDK(t *rapid.T) SDKCase {
 		pick -= x.weight
 	}
 	c := SDKCase{Comp: d.comp, Setting: d.name}
+	if d.name == "mixed" {
+		genMixed(t, &c)
+		return c
+	}
 	if d.comp == "sampler" {
 		st := uniform(t, 27, "states")
 		c.Opt.State, c.Env.State, c.Arg.State = st%3, (st/3)%3, st/9
@@ -614,6 +625,12 @@ func runSDK(c SDKCase) ([]vk.Violation, vk.Info) {
 	d := defOf(c.Comp, c.Setting)
 
 	info.Class("comp/" + c.Comp + "/" + c.Setting)
+	if c.Setting == "mixed" {
+		env := &envSetter{}
+		defer env.restore()
+		runMixed(r, env)
+		return r.vs, info
+	}
 	if c.Comp == "sampler" {
 		info.NonTrivial = c.Opt.State != absent && c.Env.State != absent
 		info.Class("sampler_states/o" + stateNames[c.Opt.State] + "e" + stateNames[c.Env.State] + "a" + stateNames[c.Arg.State])
@@ -1338,8 +1355,9 @@ func TestSDKEnv(t *testing.T) {
 	vk.Run(t, vk.Spec[SDKCase]{
 		Property: "C20", Check: "sdk_env",
 		Rule: "one setting of one SDK component (span batch processor, log batch processor, span limits, log record limits, sampler) with option / variable (/ generic variable) each absent, valid or invalid, texts from {number, \"\", abc, -1, 0, 20 digits, \" 5 \", 1e3, NaN, MaxInt64}; " +
-			"non-trivial = at least two sources provide the setting (sampler: option and OTEL_TRACES_SAMPLER both present); distinct = distinct case encodings",
-		Quick: 4000, Thorough: 50000,
+			"or, 'mixed', ALL settings of one component in one provider, each independently through {option, variable, both, neither}, every setting judged on its own; " +
+			"non-trivial = at least two sources provide the setting (sampler: option and OTEL_TRACES_SAMPLER both present; mixed: a setting comes from two sources or the settings come from different kinds of sources); distinct = distinct case encodings",
+		Quick: 4400, Thorough: 55000,
 		Gen: genSDK, Run: runSDK,
 		Known: knownSDK(),
 	})
